@@ -11,7 +11,7 @@ From God Require Export Base.Prelude C18.Conc.
 From God Require Import C18.Spec C18.Model.
 
 Record case := mkcase {
-  c_prim : nat;     (* 0 sf, 1 lc, 2 lim, 3 ref, 4 once, 5 spin, 6 done, 7 pool, 8 rm, 9 tl, 10 barrier *)
+  c_prim : nat;     (* 0 sf, 1 lc, 2 lim, 3 ref, 4 once, 5 spin, 6 done, 7 pool, 8 rm, 9 tl, 10 barrier, 11 managed, 12 immutable *)
   c_n : nat; c_m : nat;
   c_scripts : list (list op);
   c_sched : list lbl;
@@ -78,6 +78,10 @@ Definition model_ok (c : case) : bool :=
   | 8 => let fin := replay RM.step RM.busy fuel (threads_of c) (c_sched c) (RM.init (scripts_of c)) in
          results_ok c (fun t => RM.t_res (RM.ts fin t))
   | 9 => ao_model (tl_sstep (c_n c)) LIM.init c
+  | 11 => let fin := replay MR.step MR.busy fuel (threads_of c) (c_sched c) (MR.init (scripts_of c)) in
+          results_ok c (fun t => MR.t_res (MR.ts fin t))
+  | 12 => let fin := replay (IR.step (c_m c)) IR.busy fuel (threads_of c) (c_sched c) (IR.init (scripts_of c)) in
+          results_ok c (fun t => IR.t_res (IR.ts fin t))
   | 10 => let fin := replay BAR.step BAR.busy fuel (threads_of c) (c_sched c) (BAR.init (scripts_of c)) in
           results_ok c (fun t => BAR.t_res (BAR.ts fin t))
   | _ => false
@@ -96,5 +100,7 @@ Definition spec_ok (c : case) : bool :=
   | 8 => rm_accepts (c_hist c) && complete (c_hist c)
   | 9 => linearizable (tl_sstep (c_n c)) LIM.init (c_hist c) && tl_timeouts_ok (c_hist c) []
   | 10 => lc_accepts (c_hist c) && complete (c_hist c)
+  | 11 => linearizable MR.sstep (0, 0) (c_hist c)
+  | 12 => ir_accepts (c_m c) (c_hist c) && complete (c_hist c)
   | _ => false
   end.
